@@ -61,7 +61,7 @@ func checkTrunc(c truncCase) error {
 		m.Flags &^= wm.FlagTC
 	}
 	w, err := wm.Encode(m)
-	if err != nil || len(w) > 65535 {
+	if err != nil || len(w) > 400000 {
 		return nil
 	}
 	lib, err := wm.MsgToLib(m, c.Comp)
@@ -217,8 +217,12 @@ func checkTrunc(c truncCase) error {
 
 // boundary sizes: the compressed packed length of every record prefix (OPT kept), +-1
 func pickSize(t *rapid.T, m wm.Msg) int {
-	if rapid.IntRange(0, 3).Draw(t, "sizek") == 0 {
+	switch rapid.IntRange(0, 7).Draw(t, "sizek") {
+	case 0, 1:
 		return rapid.IntRange(0, 65535).Draw(t, "size")
+	case 2:
+		// the sizes callers actually pass, and the ends of the range
+		return rapid.SampledFrom([]int{0, 511, 512, 513, 1232, 1452, 4096, 16383, 16384, 16385, 32767, 65534, 65535, 65535, 65536, 1 << 20}).Draw(t, "wellknownsize")
 	}
 	lib, err := wm.MsgToLib(m, true)
 	if err != nil {
@@ -230,7 +234,14 @@ func pickSize(t *rapid.T, m wm.Msg) int {
 	opt := lib.IsEdns0()
 	total := len(an) + len(ns) + len(ex)
 	var lens []int
-	for k := 0; k <= total; k++ {
+	step := 1
+	if total > 120 {
+		step = total / 40 // very long replies: a selection of prefixes (packing every prefix is quadratic)
+	}
+	for k := 0; k <= total; k += step {
+		if step > 1 && k+step > total {
+			k = total
+		}
 		x := lib.Copy()
 		x.Answer, x.Ns, x.Extra = nil, nil, nil
 		for i := 0; i < k; i++ {
@@ -302,6 +313,24 @@ func genPlain(t *rapid.T) truncCase {
 		}
 		m.Ns = append(reuse, m.Ns...)
 		m.Ns = append(m.Ns, reuse...)
+	case 5:
+		if gen.Rarely(t, 2) {
+			// a reply that does not fit 65535 octets even compressed (Pack has no size limit)
+			owner := gen.Name(t, gen.NameOpts{Plain: true, MaxLabs: 3, MaxLabel: 10})
+			n := rapid.IntRange(4200, 5200).Draw(t, "hugecount")
+			big := make([]wm.Rec, n)
+			for i := range big {
+				big[i] = wm.Rec{Name: owner, Type: wm.TA, Class: 1, TTL: 60, Fields: []wm.Field{{K: wm.IPv4, B: []byte{10, byte(i >> 16), byte(i >> 8), byte(i)}}}}
+			}
+			switch rapid.IntRange(0, 2).Draw(t, "hugesec") {
+			case 0:
+				m.An = append(m.An, big...)
+			case 1:
+				m.Ns = append(m.Ns, big...)
+			default:
+				m.Ex = append(m.Ex, big...)
+			}
+		}
 	case 3, 4:
 		// a sparse reply: one question with a long name, records in ONE section only (1..4 of them,
 		// a few hundred octets each, owned by the question name or a child of it), mostly no OPT –
@@ -357,6 +386,27 @@ func genAny(t *rapid.T) truncCase {
 	}
 	mo.Types = types
 	m := gen.Msg(t, mo)
+	if rapid.IntRange(0, 9).Draw(t, "filler16k") == 0 {
+		// names with escapes first written around offset 16384 and used again later: the walk's
+		// length prediction and the packer must agree on which of them can be pointed at
+		pre := 12
+		for _, q := range m.Q {
+			pre += q.Name.WireLen() + 4
+		}
+		k := rapid.IntRange(-30, 60).Draw(t, "k16")
+		m.An = append([]wm.Rec{gen.PlainFiller(16384 - pre - 16 - k)}, m.An...)
+		var reuse []wm.Rec
+		for _, r := range m.An[1:] {
+			reuse = append(reuse, wm.Rec{Name: r.Name.Clone(), Type: wm.TNS, Class: 1, TTL: 1, Fields: []wm.Field{{K: wm.NameC, N: r.Name.Clone()}}})
+		}
+		if len(reuse) == 0 {
+			n := gen.Name(t, gen.NameOpts{MaxLabs: 4, MaxLabel: 6})
+			reuse = append(reuse, wm.Rec{Name: n, Type: wm.TNS, Class: 1, TTL: 1, Fields: []wm.Field{{K: wm.NameC, N: n.Clone()}}})
+		}
+		m.Ns = append(reuse, m.Ns...)
+		m.Ns = append(m.Ns, reuse...)
+		m.Ex = append(m.Ex, reuse...)
+	}
 	if rapid.IntRange(0, 7).Draw(t, "sig0") == 0 {
 		// a transaction signature that is NOT a TSIG: the SIG(0) record of RFC 2931 (root owner,
 		// class ANY, type covered 0) closes the additional section; Truncate's exemption is for TSIG only
